@@ -378,6 +378,11 @@ func genAccount(t *rapid.T, prop string, kind string) Account {
 		a.TokOffsetS = rapid.Int64Range(-90, 90).Draw(t, "tokOffS")
 		a.TokOffsetNs = rapid.Int64Range(0, 999_999_999).Draw(t, "tokOffNs")
 		a.DriftPPM = rapid.IntRange(-300, 300).Draw(t, "drift")
+		if weighted(t, "sameClock?", 3, 1) == 1 {
+			// several tokens on exactly the verifier's clock: the same second is asked
+			// for with different periods / digits / hashes in one history
+			a.TokOffsetS, a.TokOffsetNs, a.DriftPPM = 0, 0, 0
+		}
 		a.Zone = rapid.IntRange(0, 9).Draw(t, "zone")
 		a.Mono = rapid.Bool().Draw(t, "mono")
 	case "ocra":
